@@ -31,6 +31,8 @@ class SimDB(MutableMapping):
         self._call_sets = 0
         self._call_dels = 0
         self.fired = None
+        self._withheld = None  # set of keys that read as absent for one call
+        self.withheld_hits = []
         # optional read log and interposition callback
         self.readlog = None
         self.on_access = None
@@ -43,12 +45,19 @@ class SimDB(MutableMapping):
             self._cb("get", key)
         if self.readlog is not None:
             self.readlog.append(key)
+        wh = self._withheld
+        if wh is not None and key in wh and key in self._d:
+            self.withheld_hits.append(key)
+            raise KeyError(key)
         return self._d[key]
 
     def __contains__(self, key):
         self.n_in += 1
         if self.on_access is not None:
             self._cb("in", key)
+        wh = self._withheld
+        if wh is not None and key in wh:
+            return False
         return key in self._d
 
     def __setitem__(self, key, value):
@@ -114,10 +123,12 @@ class SimDB(MutableMapping):
         finally:
             self._in_cb = False
 
-    def arm(self, fail_set=None, fail_del=None):
+    def arm(self, fail_set=None, fail_del=None, withhold=None):
         """Arm fault directives for the next library call and reset the per-call counters."""
         self._fail_set_at = fail_set
         self._fail_del_at = fail_del
+        self._withheld = withhold if withhold else None
+        self.withheld_hits = []
         self._call_sets = 0
         self._call_dels = 0
         self.fired = None
@@ -126,6 +137,7 @@ class SimDB(MutableMapping):
         sets, dels = self._call_sets, self._call_dels
         self._fail_set_at = None
         self._fail_del_at = None
+        self._withheld = None
         return sets, dels
 
     def snapshot(self):
